@@ -32,10 +32,12 @@ PROPS = {
   "rule": "reachable states by random prefixes (as C04), every drop sample checked for non-increase and AIMD's exact rule, then a sustained run of "
           "drops at the current baseline RTT until the floor; non-trivial = a drop sample / a completed floor run; distinct by (algorithm, estimate, inputs)",
   "level_text": "C06_aimd_exact (the decrease rule with the binary64 product) and C06_aimd_nonincrease proved for all limits < 2^52 and ratios in [0,1]; "
-                "C06_gradient_nonincrease proved for every Gradient state satisfying the safety invariant with estimate >= 4 and smoothing in [2^-50,1] (halving, binary64 smoothing and clamps); "
-                "Vegas non-increase and floor reachability are decided by replay + oracle on every run.",
+                "C06_gradient_nonincrease / C06_gradient_after_any_history: after any sample history from a state with estimate >= 4 and smoothing in [2^-50,1] a drop never raises Gradient's estimate "
+                "(halving, binary64 smoothing, clamps; the side conditions are proved step-invariant); C06_vegas_nonincrease / C06_vegas_after_any_history / C06_vegas_drop_run_monotone: "
+                "from every state satisfying the Vegas safety invariant, after any history, a drop never raises the reported estimate and drop runs are monotone; "
+                "floor reachability within the configured bound is decided by replay + oracle on every run.",
   "level_note": "Trusted as C04. Known findings F5 (Gradient built below its queue allowance) and F19 (Vegas frozen by per-sample probing when multiplier*estimate <= 2) are replayed and reported as KNOWN-FINDING.",
-  "technique": "Coq/Flocq theorems for AIMD and Gradient + differential replay and drop-run oracle for Vegas and floor reachability",
+  "technique": "Coq/Flocq theorems for AIMD, Vegas and Gradient non-increase over all histories + differential replay and drop-run oracle for floor reachability",
  },
  "C07": {
   "tests": ["TestC07"],
